@@ -54,6 +54,13 @@ def check_msg(d, frozen=False):
             if not (r == m) or type(r) is not mido.Message or R.same_message(r, {**d, 'data': tuple(d['data'])}
                                                                              if 'data' in d else d):
                 out.append(fail('str-roundtrip', f'{m!r} -> {s!r} -> {r!r}', type=t))
+            r2 = mido.Message.from_str(s)
+            if r2 is r:
+                out.append(fail('str-shared', f'from_str returned the same object twice for {s!r}', type=t))
+            else:
+                r2.time = 5150
+                if r.time == 5150 and m.time != 5150:
+                    out.append(fail('str-shared', f'objects parsed from {s!r} share state', type=t))
             if mido.parse_string(s) != m or mido.format_as_string(m) != s:
                 out.append(fail('str-api', f'parse_string/format_as_string disagree for {m!r}', type=t))
         except Exception as exc:  # noqa: BLE001
